@@ -167,13 +167,18 @@ structure ExtEnv where
   inValid : Nat → Bool
   outRecv : Nat → Bool
 
+/-- the ports a processor has: those its program mentions, up to the highest index -/
+def srcPorts (ls : List Line) : Nat × Nat :=
+  (portCount (ls.flatMap fun l => l.args.filterMap fun | .inp k => some k | _ => none) % 256,
+   portCount (ls.flatMap fun l => l.args.filterMap fun | .out k => some k | _ => none) % 256)
+
 open Topology in
-/-- (driver, sink) for every `ioatt` pair that joins a driver (external input, processor output)
-    with a sink (external output, processor input) -/
-def netOf (src : Source) : List (Bond × Bond) :=
-  (pairs src.cps src.ioatts).filterMap fun (a, b) =>
-    let isSink (x : Bond) : Bool := x.kind == 1 || x.kind == 2
-    let isDrv (x : Bond) : Bool := x.kind == 0 || x.kind == 3
+/-- (driver, sink) for every `ioatt` pair that joins an existing driver (external input, processor
+    output) with an existing sink (external output, processor input); `ports` = (N, M) per processor -/
+def netOf (src : Source) (ports : List (Nat × Nat)) : List (Bond × Bond) :=
+  (pairs src.procs src.ioatts).filterMap fun (a, b) =>
+    let isSink (x : Bond) : Bool := x.kind == 1 || (x.kind == 2 && match ports[x.res]? with | some nm => x.ext < nm.1 | none => false)
+    let isDrv (x : Bond) : Bool := x.kind == 0 || (x.kind == 3 && match ports[x.res]? with | some nm => x.ext < nm.2 | none => false)
     if isSink a && isDrv b then some (b, a)
     else if isSink b && isDrv a then some (a, b)
     else none
